@@ -246,6 +246,9 @@ func (m *mixed) Gen(w *e.World, r *e.RNG) e.Step {
 		}
 		return e.Step{K: "crash", A: i}
 	case "govevm":
+		if w.Cfg.Flags["pair_bias"] == 1 && r.Chance(0.5) {
+			return e.Step{K: "gov", N: []int64{4, r.Range(0, 7)}} // toggle a token pair
+		}
 		return e.Step{K: "gov", N: []int64{int64(r.Weighted([]int{4, 2, 3, 1, 2, 3})), r.Range(0, 7)}}
 	case "stall":
 		if len(w.Reps) < 2 {
